@@ -785,7 +785,7 @@ func (fv *FnV) doSlice(st *State, ins *ssa.Slice) error {
 		if ins.High != nil {
 			// a legal reslice beyond len conjures elements from spare capacity
 			label := "reslice-within-len:" + fv.siteText(ins.Pos(), "slice")
-			fv.emit(st, "S", label, fv.safetyPropsAt(label), "(bvsle "+hi+" (s!len "+s+"))", "slice upper bound does not exceed the length", ins.Pos()).Contained = false
+			fv.emit(st, "S", label, fv.safetyPropsAt(label), "(bvsle "+hi+" (s!len "+s+"))", "slice upper bound does not exceed the length", ins.Pos()).Contained = fv.hasRecover
 		}
 		out := app("mk!slice", "(s!ref "+s+")", "(bvadd (s!off "+s+") "+lo+")", "(bvsub "+hi+" "+lo+")", "(bvsub "+mx+" "+lo+")")
 		fv.vals[ins] = fv.fromTerm(fv.c.Define(ins.Name(), sSlice, out), ins.Type())
